@@ -37,9 +37,9 @@ Proof.
     destruct (String.eqb "assert_eq" x); reflexivity.
 Qed.
 
-Lemma nv_RelW : RelW zops (stale_in nv_prog) nv_C nv_W.
+Lemma nv_RelW : RelW zops nv_C nv_W.
 Proof.
-  split; [|split].
+  split.
   - intros i name fd H. destruct i as [|[|i]]; cbn in H; try discriminate.
     inversion H; subst name fd.
     exists nv_ce, 1, 0. split; [reflexivity|]. split; [|split].
@@ -52,7 +52,6 @@ Proof.
     destruct (String.eqb "print" x); [discriminate|].
     destruct (String.eqb "assert" x); [discriminate|].
     destruct (String.eqb "assert_eq" x); discriminate.
-  - intros name idx H. change (chunk_names nv_C) with (fn_names nv_prog). apply stale_in_rposition. exact H.
 Qed.
 
 (* all hypotheses of expr_statement_correct hold, hence its conclusion; the value is
@@ -62,7 +61,7 @@ Lemma nv_conclusion :
               {| m_frames := [F 0 3 0]; m_stack := [VQ 2%Z]; m_last := None; m_out := []; m_res := None |}
             = Ok ([], Some (VQ 14%Z)).
 Proof.
-  apply (expr_statement_correct zops (stale_in nv_prog) nv_C nv_W nv_RelW 20 nv_expr (VQ 14%Z)
+  apply (expr_statement_correct zops nv_C nv_W nv_RelW 20 nv_expr (VQ 14%Z)
            nv_ce 3 0 [ILoadConstant 0] [] None).
   - vm_compute. reflexivity.
   - exact nv_cenv_rel.
